@@ -165,8 +165,9 @@ def build(ctx, res):
     f.spec("    ensures r as int == nwords(width),")
     add(f, "value::words_for")
     f = v.item("fn", "mask_top_word")
-    f.sub(r"if rem != 0\s*&& let Some\(last\) = words\.last_mut\(\)\s*\{", "if rem != 0 { if let Some(last) = words.last_mut() {", count=1, rule="O10 let-chain split (Verus runs edition 2021)")
-    f.sub(r"\*last &= u64::MAX >> \(64 - rem\);\s*\}", "*last &= u64::MAX >> (64 - rem);\n    } }", count=1, rule="O10 let-chain split")
+    f.sub(r"if ([^\n{}]*?)\s*&& let Some\(last\) = words\.last_mut\(\)\s*\{", r"if \1 { if let Some(last) = words.last_mut() {", count=1,
+          rule="O10 let-chain split `if C && let P = E { S }` -> `if C { if let P = E { S } }` (Verus runs edition 2021)")
+    f.sub(r"(\*last &= [^;\n]*;)\s*\}\s*\}\s*$", r"\1\n    } }\n}", count=1, rule="O10 let-chain split (closing brace)")
     f.spec("""    ensures
         final(words)@.len() == old(words)@.len(),
         // nothing but the top word is touched
